@@ -296,7 +296,54 @@ def gen_decoders():
     return {"decoders": names}
 
 
-GENERATORS = [("GenTokens", gen_tokens), ("GenLegend", gen_legend), ("GenDecoders", gen_decoders)]
+# ------------------------------------------------------------------------------------------
+# preprocessor.rs, lib.rs -> GenPipeline.v: the steps between the caller's text and the tokens
+# ------------------------------------------------------------------------------------------
+def fn_body(src, header_re, what):
+    m = re.search(header_re, src)
+    if not m:
+        raise Refuse("%s not found" % what)
+    i = src.index("{", m.end() - 1)
+    depth = 0
+    for j in range(i, len(src)):
+        if src[j] == "{":
+            depth += 1
+        elif src[j] == "}":
+            depth -= 1
+            if depth == 0:
+                return src[i + 1:j]
+    raise Refuse("%s: unbalanced braces" % what)
+
+
+def code_lines(body):
+    out = []
+    for l in body.split("\n"):
+        l = l.strip()
+        if not l or l.startswith("//"):
+            continue
+        out.append(l)
+    return out
+
+
+def gen_pipeline():
+    pre = read("compiler/parser/src/preprocessor.rs")
+    body = code_lines(fn_body(pre, r"pub fn preprocess\(source: &str\) -> String \{", "preprocessor.rs: preprocess"))
+    if body != ["let source = source.to_string();", "remove_oscat_comment(source)"]:
+        raise Refuse("preprocessor.rs: preprocess() has steps the model does not know: %r" % body)
+    lib = read("compiler/parser/src/lib.rs")
+    tb = " ".join(code_lines(fn_body(lib, r"pub fn tokenize_program\(", "lib.rs: tokenize_program")))
+    for frag in ["let source = preprocess(source);", "tokenize(&source, file_id)", "insert_keyword_statement_terminators("]:
+        if frag not in tb:
+            raise Refuse("lib.rs: tokenize_program no longer has the modelled shape (missing %r): %s" % (frag, tb))
+    o = ["(* GENERATED by tools/translate.py from compiler/parser/src/{preprocessor,lib}.rs -- do not edit *)",
+         "From Coq Require Import List String.", "Import ListNotations.", "Local Open Scope string_scope.", "",
+         'Definition preprocess_steps : list string := ["remove_oscat_comment"].',
+         'Definition tokenize_program_steps : list string := ["preprocess"; "tokenize"; "insert_keyword_statement_terminators"].', ""]
+    write_if_changed("GenPipeline.v", "\n".join(o) + "\n")
+    return {"preprocess": body, "tokenize_program": "ok"}
+
+
+GENERATORS = [("GenPipeline", gen_pipeline), ("GenTokens", gen_tokens), ("GenLegend", gen_legend), ("GenDecoders", gen_decoders)]
 
 
 def main():
